@@ -302,6 +302,7 @@ class Recorder:
         before = digest(mask)
         res = self._call(ev, lambda: idx.filtered(mask, int(mask.sum())))
         ev["memsame"] = digest(mask) == before
+        ev["shares"] = res is idx          # boolean row selection yields a new array, also when every row is kept
         self._finish(ev, recv=idx, ret=project(res) if res is not None else dict(NOREP), desc=("filtered", mask.tolist()))
         return res
 
@@ -351,6 +352,7 @@ class Recorder:
         kw = {} if mapping is None else {"mapping": mapping}
         res = self._call(ev, lambda: idx.collapsed(precedence, **kw))
         ev["memsame"] = digest([precedence, mapping]) == before
+        ev["shares"] = res is idx
         self._finish(ev, recv=idx, ret=project(res) if res is not None else dict(NOREP),
                      desc=("collapsed", list(precedence), mapping))
         return res
